@@ -22,7 +22,7 @@ import ast
 from ..engine.model import AnalysisError, src, walk_own
 from ..engine import npstub
 from ..engine.flow import Flow
-from ..engine.inline import Inliner
+from ..engine.inline import Inliner, norm_text
 from ..engine.typestate import FactDomain, EventDomain
 from .armstate import ArmChecker, ARM, self_field, POSE, HELPERS
 
@@ -133,40 +133,41 @@ def r053(model, rep, ck):
     if fk is None:
         raise AnalysisError('anchor vanished: Arm.FK')
     theta = fk.params[1]
-    calls = [c for c in walk_own(fk.node) if isinstance(c, ast.Call) and isinstance(c.func, ast.Attribute) and c.func.attr == 'FKinSpace']
-    if len(calls) != 1:
-        raise AnalysisError('Arm.FK: expected one FKinSpace call, found %d' % len(calls))
-    c = calls[0]
-    il = Inliner(fk)
-    a = [il.text(x) for x in c.args]
-    ok = len(a) == 3 and a[0] in ('self._end_effector_home.gTM()', 'self._end_effector_home.TM') and a[1] == 'self.screw_list' and a[2] == theta
-    rep.ob('R05.3', fk, src(c), ok, 'FK must evaluate FKinSpace(home tool pose, space screws, theta); got (%s)' % ', '.join(a), line=c.lineno)
-    # clamp dominance: path-sensitive - at the FKinSpace call either protect is truthy or theta was reassigned from thetaProtector
-
-    class D(FactDomain):
-        def user_store(s, target, value, stmt, facts, user):
-            if isinstance(target, ast.Name) and target.id == theta and value is not None:
-                return 'clamped' if 'thetaProtector(%s)' % theta in src(value) else 'other'
-            return user
-
-        def user_call(s, call, facts, user):
-            if call is c:
-                prot = FactDomain.has(facts, True, fk.params[2]) or FactDomain.has(facts, False, 'not %s' % fk.params[2])
-                seen.append(user == 'clamped' or prot)
-            return user
-    seen = []
-    Flow(D()).run(fk.body(), {((frozenset(), None), frozenset())})
-    rep.ob('R05.3', fk, 'clamp dominates the kernel call unless protect', bool(seen) and all(seen),
-           'on some path FKinSpace receives joints that were not clamped by thetaProtector although protect is false', line=c.lineno)
-    st_theta = [n for n in walk_own(fk.node) if isinstance(n, ast.Assign) and any(self_field(t) == '_theta' for t in n.targets)]
-    st_pose = [n for n in walk_own(fk.node) if isinstance(n, ast.Assign) and any(self_field(t) == POSE for t in n.targets)]
-    ok = len(st_theta) == 1 and theta in {x.id for x in ast.walk(st_theta[0].value) if isinstance(x, ast.Name)}
-    rep.ob('R05.3', fk, 'self._theta stored from the evaluated vector', ok, 'FK does not store the joint vector it evaluated')
-    ok2 = False
-    if len(st_pose) == 1:
-        got = il.text(st_pose[0].value)
-        ok2 = got in ('tm(%s)' % il.text(c), il.text(c), 'tm(%s).copy()' % il.text(c))
-    rep.ob('R05.3', fk, 'stored tool pose is the FKinSpace result', ok2, 'the pose FK stores is not the product-of-exponentials result')
+    # path summaries of FK (conditional expressions lowered to statements, locals substituted): what reaches the kernel, under which facts
+    from ..engine import peval as _pe
+    from ..engine.paths import paths_of
+    flat = _pe.flatten({}, fk.node, depth=1, impure=True)
+    prot = fk.params[2] if len(fk.params) > 2 else 'protect'
+    HOME = ('self._end_effector_home.gTM()', 'self._end_effector_home.TM')
+    n_calls = 0
+    shape_ok, clamp_ok, theta_ok, pose_ok = True, True, True, True
+    got_args, line_c = '', fk.node.lineno
+    for pth in paths_of(flat, fk.params):
+        kc = [e for e in pth.events if e[0] == 'call' and e[1].split('.')[-1] == 'FKinSpace']
+        if not kc:
+            continue                      # the `theta is None` early return
+        if len(kc) != 1:
+            raise AnalysisError('Arm.FK: expected one FKinSpace call per path, found %d' % len(kc))
+        n_calls += 1
+        _k, callee, args, line_c = kc[0][:4]
+        got_args = ', '.join(args)
+        vec = args[2] if len(args) == 3 else ''
+        shape_ok = shape_ok and len(args) == 3 and args[0] in HOME and args[1] == 'self.screw_list' and vec in (theta, 'self.thetaProtector(%s)' % theta)
+        protected = pth.facts.get(prot) is True or pth.facts.get('not' + prot) is False
+        clamp_ok = clamp_ok and (vec == 'self.thetaProtector(%s)' % theta or (vec == theta and protected))
+        st_t = [e for e in pth.events if e[0] == 'store' and e[1] == 'self._theta' and len(e) > 3]
+        theta_ok = theta_ok and len(st_t) == 1 and norm_text(vec) in norm_text(st_t[0][3])
+        st_p = [e for e in pth.events if e[0] == 'store' and e[1] == 'self.' + POSE and len(e) > 3]
+        kernel = '%s(%s)' % (callee, ','.join(args))
+        pose_ok = pose_ok and len(st_p) == 1 and norm_text(st_p[0][3]) in ('tm(%s)' % kernel, kernel, 'tm(%s).copy()' % kernel)
+    if not n_calls:
+        raise AnalysisError('Arm.FK: no path reaches an FKinSpace call')
+    rep.ob('R05.3', fk, 'FKinSpace(home tool pose, space screws, theta)', shape_ok,
+           'FK must evaluate FKinSpace(home tool pose, space screws, theta); got (%s)' % got_args, line=line_c)
+    rep.ob('R05.3', fk, 'clamp dominates the kernel call unless protect', clamp_ok,
+           'on some path FKinSpace receives joints that were not clamped by thetaProtector although protect is false', line=line_c)
+    rep.ob('R05.3', fk, 'self._theta stored from the evaluated vector', theta_ok, 'FK does not store the joint vector it evaluated')
+    rep.ob('R05.3', fk, 'stored tool pose is the FKinSpace result', pose_ok, 'the pose FK stores is not the product-of-exponentials result')
     # the clamp itself: theta[where(theta < mins)] = mins[where(theta < mins)], same for > maxs; returns theta
     tp = arm.methods.get('thetaProtector')
     if tp is None:
@@ -578,13 +579,18 @@ def r0512(model, rep, ck):
                 return any(is_view(a_, views) for a_ in e.args)
         return False
 
+    from ..engine import peval as _pe12
+    arm_meths = {n_: f_.node for n_, f_ in ck.arm.methods.items()}
     for name, fi in sorted(ck.arm.methods.items()):
+        if name.startswith('_') and not name.startswith('__'):
+            continue                      # private helpers are read where they are called (inlined below)
+        node12 = _pe12.flatten(arm_meths, fi.node, depth=2, impure=True)
         views = set()
         for _ in range(2):
-            for st in walk_own(fi.node):
+            for st in walk_own(node12):
                 if isinstance(st, ast.Assign) and len(st.targets) == 1 and isinstance(st.targets[0], ast.Name) and is_view(st.value, views):
                     views.add(st.targets[0].id)
-        for c in walk_own(fi.node):
+        for c in walk_own(node12):
             if not isinstance(c, ast.Call):
                 continue
             hot = [(k, a_) for k, a_ in enumerate(c.args) if is_view(a_, views)]
